@@ -72,6 +72,11 @@ func ParseFile(inputPath string) (areas []textArea, err error) {
 		}
 
 		for _, field := range structDecl.Fields.List {
+			// 没有 tag 的字段无法注入, 跳过
+			if field.Tag == nil {
+				continue
+			}
+
 			var comments []*ast.Comment
 			// 字段的注释
 			if field.Comment != nil {
